@@ -211,6 +211,12 @@ func (c *Channel) JoinPresence(ctx context.Context, p stanza.Presence, opt ...Op
 		c.addr = newAddr
 	}
 
+	// The channel stops being managed when we leave the room, make sure that the
+	// presences of the room we are about to (re)join reach it again.
+	c.client.managedM.Lock()
+	c.client.managed[c.addr.String()] = c
+	c.client.managedM.Unlock()
+
 	ctx, cancel := context.WithCancel(ctx)
 	defer cancel()
 
